@@ -272,6 +272,7 @@ theorem step_keeps_pool {s s' : State} (a : Action) (hna : a.isCfg = false) (hs 
   | finish r out => simp only [step, stepFinish] at hs; keep_pool hs
   | after r => simp only [step, stepAfter] at hs; keep_pool hs
   | forget i => simp only [step, stepForget] at hs; keep_pool hs
+  | fallback r => simp only [step, stepFallback] at hs; keep_pool hs
   | tick => simp [step] at hs; subst hs; exact ⟨rfl, rfl⟩
 
 theorem poolInv_of_same {s s' : State} (hi : PoolInv s) (h : s'.cfgs = s.cfgs ∧ s'.pool = s.pool) : PoolInv s' := by
@@ -324,6 +325,7 @@ theorem poolInv_step {s s' : State} (a : Action) (hi : PoolInv s) (hs : step s a
   | finish r out => exact poolInv_of_same hi (step_keeps_pool _ rfl hs)
   | after r => exact poolInv_of_same hi (step_keeps_pool _ rfl hs)
   | forget i => exact poolInv_of_same hi (step_keeps_pool _ rfl hs)
+  | fallback r => exact poolInv_of_same hi (step_keeps_pool _ rfl hs)
   | tick => exact poolInv_of_same hi (step_keeps_pool _ rfl hs)
 
 theorem poolInv_reachable {s : State} (h : Reachable s) : PoolInv s := by
